@@ -4,6 +4,16 @@ selftest/last_run.json (which checks catch which changes)."""
 import json, os, re
 HERE = os.path.dirname(os.path.dirname(os.path.abspath(__file__)))
 WHAT = {
+ 'S-C01-8': 'update_pin_info returns early when no enemy slider shares a line with the king, before the knight and pawn checker look-ups: set-up positions in knight/pawn check generate illegal moves',
+ 'S-C02-8': 'castle-rights updates split by mover: for a king move only `remove_my_castle_rights(Both)`; a king capturing a home-square rook leaves the opponent\'s right',
+ 'S-C03-8': 'from-scratch pin test counts only the side to move\'s men between slider and king: false pins / missing bits against the incremental copies',
+ 'S-C06-8': 'update_pin_info records `between & mine` as pinned; the copies in make_move* still record a lone blocker of either colour: parsed board != played board',
+ 'S-C07-8': 'BoardBuilder stores the en-passant SQUARE resolved at set time; a later side_to_move() leaves it on the wrong rank',
+ 'S-C08-8': '"like takes like" capture fast path moves the square between the colour boards and xors only the new owner\'s key',
+ 'S-C10-8': 'status() fast path: Ongoing when any pawn has a free square ahead and not in check (ignores pins): stalemates with a pinned pawn are missed',
+ 'S-C11-8': 'early `return false` when the repetition list has fewer than 9 entries, placed before the fifty-move test',
+ 'S-C12-8': '" e.p." settled once before the loop: rejected unless board.en_passant() == Some(dest) (the pawn\'s square, not the landing square)',
+ 'S-C14-8': 'en-passant source loop skips pinned pawns: a capture along the pin diagonal is never yielded',
  'S-C04-7': 'direct pawn-check lookup hoisted to the top of the pawn branch, the copy in the double-push branch left behind: XOR toggles twice, a double-push check is never recorded',
  'S-C05-7': 'is_sane "hardening": with an en-passant square only the double-stepped pawn may give check (a discovered slider check after a double push is rejected)',
  'S-C09-7': 'Zobrist::piece through a flat pointer with row = colour * NUM_COLORS + piece (stride 2 instead of 6): black pawn = white bishop etc.',
